@@ -130,6 +130,10 @@ func VerifC16Structured() {
 		cfg.vals = append(cfg.vals, vb)
 	}
 	hasDefault := nd.Bool()
+	if hasDefault && nd.Bool() {
+		d = d + ":" + d // a default may itself contain the key/default separator
+		nd.Cover("default containing a colon")
+	}
 	tag := pre + "${a}" + mid + "${b"
 	if hasDefault {
 		tag += ":" + d
